@@ -173,34 +173,23 @@ theorem readId (e : Endian) (eh : Bool) (f : Format) (r : Bytes) :
     | dwarf32 => exact Ints.readFixed_toBytes e 4 0xffff_ffff r (by decide)
     | dwarf64 => exact Ints.readFixed_toBytes e 8 0xffff_ffff_ffff_ffff r (by decide)
 
-/-- the return address register field reads back, except for registers from 128 on in
-`.eh_frame` (finding C14-1) -/
-theorem readRa (e : Endian) (eh : Bool) (c : WCie) (ra r : Bytes)
-    (hver : versionOk eh c.version = true) (hra : eh = true → c.raReg.toNat < 128)
-    (h : raBytes eh c.version c.raReg = .ok ra) :
+/-- the return address register field reads back: one byte in version 1, ULEB128 otherwise -/
+theorem readRa (e : Endian) (c : WCie) (ra r : Bytes)
+    (h : raBytes c.version c.raReg = .ok ra) :
     (if c.version = 1 then Ints.readFixed e 1 (ra ++ r) else Leb.unsigned (ra ++ r)) = .ok (c.raReg.toNat, r) := by
-  obtain ⟨hv1, hv⟩ := versionOk_cases hver
   have hlt : c.raReg.toNat < 2 ^ 16 := c.raReg.toNat_lt
   unfold raBytes at h
   by_cases h1 : c.version = 1
   · rw [if_pos h1]
-    cases eh with
-    | false =>
-      simp only [Bool.not_false, true_and, h1, if_true] at h
-      split at h
-      · cases h
-      · cases h
-        exact readFixed_byte e _ (by omega) r
-    | true =>
-      simp only [Bool.not_true, Bool.false_eq_true, false_and, if_false] at h
-      cases h
-      rw [encodeU_small _ (hra rfl)]
-      exact readFixed_byte e _ (by have := hra rfl; omega) r
+    rw [if_pos h1] at h
+    split at h
+    · cases h
+    · cases h
+      exact readFixed_byte e _ (by omega) r
   · rw [if_neg h1]
-    rw [if_neg (fun hh => h1 hh.2)] at h
+    rw [if_neg h1] at h
     cases h
     exact Leb.unsigned_roundtrip _ (by omega) r
-
 
 theorem take_all (n : Nat) (l : Bytes) (h : n = l.length) : Ints.take n l = .ok (l, []) := by
   subst h
@@ -212,7 +201,7 @@ theorem take_prefix (a b : Bytes) : Ints.take a.length (a ++ b) = .ok (a, b) := 
   simp
 
 theorem cie_header_roundtrip_main (m : Mode) (e : Endian) (eh : Bool) (c : WCie) (off : Nat) (bs : Bytes)
-    (hr : c.InRange) (hra : eh = true → c.raReg.toNat < 128) (hlen : bs.length < 2 ^ 64)
+    (hr : c.InRange) (hlen : bs.length < 2 ^ 64)
     (h : cieWrite m e eh c off = .ok bs) :
     ∃ aug ins n pos, cieAugData e c pos = .ok aug ∧ instrsWrite c.dataAlign c.instructions = .ok ins ∧
       readCieHeader e eh bs = .ok
@@ -292,9 +281,9 @@ theorem cie_header_roundtrip_main (m : Mode) (e : Endian) (eh : Bool) (c : WCie)
       intro asz
       rw [Leb.unsigned_roundtrip c.codeAlign (by omega)]
       simp only [Out.bind_ok]
-      rw [Sleb.signed_roundtrip c.dataAlign (by omega) (by omega)]
+      rw [Leb.signed_roundtrip c.dataAlign (by omega) (by omega)]
       simp only [Out.bind_ok]
-      rw [readRa e eh c ra _ hver hra hraB]
+      rw [readRa e c ra _ hraB]
       simp only [Out.bind_ok]
       obtain ⟨hs1, hs2⟩ := cieAugData_shape e c _ aug ⟨hAsz, hCaf, hDaf1, hDaf2, ‹_›, ‹_›, ‹_›⟩ haug
       cases hh : c.hasAugmentation with
@@ -403,7 +392,7 @@ theorem ehPointerData_roundtrip (e : Endian) (w enc size : Nat) (bs rest : Bytes
   · rename_i hf; rw [hf]
     cases h
     simp only
-    rw [Sleb.signed_roundtrip _ hr.1 hr.2 rest]
+    rw [Leb.signed_roundtrip _ hr.1 hr.2 rest]
     simp only [Out.bind_ok, Out.pure_eq, ofI64_toI64 w hw]
   · rename_i hf; rw [hf]
     obtain ⟨pat, h1, h2⟩ := writeSdata_roundtrip e _ 2 (Or.inl rfl) hr bs rest h
